@@ -48,6 +48,19 @@
 //!   AXFR-style IXFR.  Every response must verify, be <= 65535 octets, the
 //!   stream must be a valid transfer in which every record travels exactly
 //!   once, and the real receiver must end up with the sender's zone.
+//! Serial axis: model serials are logical (1, 2, 3 = versions of a history);
+//!   a scheme (start, step) maps them to SOA serials.  Scheme 0 is 1,2,3; seven
+//!   more cross the 2^32 wrap (FFFFFFFF->0->1, FFFFFFFF->1->3, FFFFFFFE->
+//!   FFFFFFFF->0), the 2^31 half range (7FFFFFFF->80000000, 80000000->...),
+//!   jump far (FFFFFF00->00FFFF00) or run backwards (10->9->8: the new version
+//!   is older).  Part S runs completely under every scheme (the sender's
+//!   "requester is up to date" / fallback decisions are checked against RFC
+//!   1982 arithmetic computed in u64; the equal-serial request is part of it);
+//!   parts R and D run under the other schemes on a smaller complete space
+//!   (pairs <=1 RRset apart, all stream kinds incl. 2-step through a mid
+//!   serial, one message / one cut at every position / one RR per message;
+//!   edit sequences <=1 in both commit modes: a diff must be returned exactly
+//!   when the new serial is newer, with the right serials).
 //!
 //! Oracles (every case): no panic; reference verdict vs pipeline outcome
 //! (invalid => Err or never finished; valid => finished and receiver ==
@@ -184,7 +197,59 @@ struct CRec {
 /// sorted multiset of records
 type Obs = Vec<CRec>;
 
+// ---- the serial axis --------------------------------------------------
+//
+// Everywhere in the model a serial is a small logical number (1, 2, 3 are
+// the versions of a history, 0 is "a serial the sender knows nothing of",
+// base+10 the target of a later update, ...).  A serial scheme (start, step)
+// maps it to the SOA serial that is really used: start + (s-1)*step mod 2^32.
+// Scheme 0 is the identity; the others cross the 2^32 wrap, the 2^31 half
+// range, jump far, or run backwards.
+const SCHEMES: [(u32, u32); 8] = [
+    (1, 1),
+    (0xFFFF_FFFF, 1),          // FFFFFFFF -> 0 -> 1
+    (0xFFFF_FFFF, 2),          // FFFFFFFF -> 1 -> 3
+    (0xFFFF_FFFE, 1),          // FFFFFFFE -> FFFFFFFF -> 0
+    (0x7FFF_FFFF, 1),          // 7FFFFFFF -> 80000000 -> 80000001
+    (0x8000_0000, 1),          // 80000000 -> 80000001 -> 80000002
+    (0xFFFF_FF00, 0x0100_0000), // FFFFFF00 -> 00FFFF00 -> 01FFFF00
+    (10, 0xFFFF_FFFF),         // 10 -> 9 -> 8: every "new" version is OLDER in serial arithmetic
+];
+
+thread_local! {
+    static SCHEME: std::cell::Cell<usize> = const { std::cell::Cell::new(0) };
+}
+
+fn scheme() -> usize {
+    SCHEME.with(|s| s.get())
+}
+
+/// Run `f` with the given serial scheme in force on this thread.
+fn with_scheme<T>(i: usize, f: impl FnOnce() -> T) -> T {
+    let prev = SCHEME.with(|s| s.replace(i));
+    let r = f();
+    SCHEME.with(|s| s.set(prev));
+    r
+}
+
+/// logical serial -> SOA serial
+fn actual(s: u32) -> u32 {
+    let (start, step) = SCHEMES[scheme()];
+    start.wrapping_add(s.wrapping_sub(1).wrapping_mul(step))
+}
+
+/// RFC 1982 3.2 for SERIAL_BITS = 32, computed in u64: is `b` newer than `a`?
+fn serial_newer(b: u32, a: u32) -> bool {
+    let (i1, i2) = (a as u64, b as u64);
+    const H: u64 = 1 << 31;
+    (i1 < i2 && i2 - i1 < H) || (i1 > i2 && i1 - i2 > H)
+}
+
 fn soa_rdata(serial: u32) -> Vec<u8> {
+    soa_rdata_actual(actual(serial))
+}
+
+fn soa_rdata_actual(serial: u32) -> Vec<u8> {
     let mut v = vec![2, b'n', b's', 1, b'z', 0, 1, b'h', 1, b'z', 0];
     for x in [serial, 7200, 900, 86400, 300] {
         v.extend_from_slice(&x.to_be_bytes());
@@ -275,7 +340,7 @@ fn data(rd: RD) -> SData {
         RD::Soa(s) => ZoneRecordData::Soa(Soa::new(
             Name::from_str("ns.z.").unwrap(),
             Name::from_str("h.z.").unwrap(),
-            Serial(s),
+            Serial(actual(s)),
             Ttl::from_secs(7200),
             Ttl::from_secs(900),
             Ttl::from_secs(86400),
@@ -926,6 +991,7 @@ fn case_json(c: &Case) -> Value {
         // (a stream emitted by the real sender is replayed from its octets like any other stream)
         "part": if c.part == "S" { "F" } else { c.part },
         "label": c.label,
+        "scheme": scheme(),
         "old": c.old_kinds,
         "old_serial": c.old_serial,
         "fault": c.fault,
@@ -1688,15 +1754,19 @@ fn run_diff_case(sh: &Shared, old_k: Kinds, ops: &[Op], mode: u8, verbose: bool)
         l.transitions += ops.len() as u64 + 1;
         l.states.insert(obs_hash(&after));
     });
-    let cj = || json!({"part": "D", "old": old_k, "ops": ops.iter().map(op_json).collect::<Vec<_>>(), "mode": mode});
-    let mut key = vec![0xD, mode];
+    let cj = || json!({"part": "D", "scheme": scheme(), "old": old_k, "ops": ops.iter().map(op_json).collect::<Vec<_>>(), "mode": mode});
+    let mut key = vec![0xD, mode, scheme() as u8];
     key.extend_from_slice(&old_k);
     key.extend_from_slice(format!("{ops:?}").as_bytes());
     if !ops.is_empty() {
         sh.stats.distinct(fnv(&key));
     }
     let want_recs = model_edits(&old, ops).0;
-    let want = model_obs(2, &want_recs);
+    // mode 0 writes the SOA of version 2; mode 1 lets commit bump the old serial by one
+    let new_serial = if mode == 0 { actual(2) } else { actual(1).wrapping_add(1) };
+    let mut want: Obs = want_recs.iter().map(|r| crec(*r)).collect();
+    want.push(CRec { owner: "z".into(), rtype: 6, ttl: TTL, rdata: soa_rdata_actual(new_serial) });
+    want.sort();
     if verbose {
         println!("diff case: old={old_k:?} ops={ops:?} mode={mode}");
         println!("  old   {}", obs_json(&old_obs));
@@ -1722,6 +1792,10 @@ fn run_diff_case(sh: &Shared, old_k: Kinds, ops: &[Op], mode: u8, verbose: bool)
                 return;
             }
             match d {
+                None if !serial_newer(new_serial, actual(1)) => {
+                    // a diff describes a step forward in serial arithmetic (RFC 1982); none can be given
+                    lcount("D:diff=None(new-serial-not-newer)");
+                }
                 None => {
                     lcount("D:diff=None");
                     report(
@@ -1736,8 +1810,8 @@ fn run_diff_case(sh: &Shared, old_k: Kinds, ops: &[Op], mode: u8, verbose: bool)
                     if verbose {
                         println!("  diff {}->{} removed {} added {}", d.start, d.end, obs_json(&d.removed), obs_json(&d.added));
                     }
-                    if (d.start, d.end) != (1, 2) {
-                        report(sh, "C10|diff|write-interface|serials", &|| format!("diff serials {}->{} instead of 1->2", d.start, d.end), &cj);
+                    if (d.start, d.end) != (actual(1), new_serial) {
+                        report(sh, "C10|diff|write-interface|serials", &|| format!("diff serials {}->{} instead of {}->{}", d.start, d.end, actual(1), new_serial), &cj);
                     }
                     match diff_mismatch(&old_obs, &d, &after) {
                         None => lcount("D:diff-correct"),
@@ -1885,6 +1959,8 @@ async fn run_sender(versions: &[(u32, BTreeSet<MRec>)], rq: &SReq) -> Result<SOu
     for w in versions.windows(2) {
         match edit_to(&zone, &w[0].1, &w[1].1, w[1].0).await? {
             Some(d) => diffs.push(Arc::new(d)),
+            // (no diff can describe a step that is not forward in serial arithmetic)
+            None if !serial_newer(actual(w[1].0), actual(w[0].0)) => {}
             None => return Err("no-diff-from-commit".into()),
         }
     }
@@ -1943,13 +2019,13 @@ fn run_sender_case(sh: &Shared, ks: &[Kinds], rq: &SReq, verbose: bool) {
         l.runs += 1;
         l.transitions += versions.len() as u64;
     });
-    let mut key = vec![0x5];
+    let mut key = vec![0x5, scheme() as u8];
     for k in ks {
         key.extend_from_slice(k);
     }
     key.extend_from_slice(format!("{rq:?}").as_bytes());
     sh.stats.distinct(fnv(&key));
-    let cj = || json!({"part": "S", "zones": ks, "request": sreq_json(rq)});
+    let cj = || json!({"part": "S", "scheme": scheme(), "zones": ks, "request": sreq_json(rq)});
     let rname = format!(
         "{}/{}{}",
         if rq.qtype == 252 { "axfr" } else { "ixfr" },
@@ -1980,7 +2056,21 @@ fn run_sender_case(sh: &Shared, ks: &[Kinds], rq: &SReq, verbose: bool) {
     let client = &versions[client_idx];
     let client_obs = &all_obs[client_idx];
     let refo = reference(&out.msgs, client_obs);
-    lcount(&format!("S:{rname}:serial={:?}:ref={:?}({})/{}", rq.serial.map(|s| if s == cur_serial { "current" } else if s == 0 { "unknown" } else { "older" }), refo.verdict, refo.reason, refo.xfr));
+    lcount(&format!(
+        "S:{rname}:serial={:?}:ref={:?}({})/{}",
+        rq.serial.map(|s| if s == cur_serial {
+            "current"
+        } else if s == 0 {
+            "unknown"
+        } else if serial_newer(actual(cur_serial), actual(s)) {
+            "behind"
+        } else {
+            "ahead"
+        }),
+        refo.verdict,
+        refo.reason,
+        refo.xfr
+    ));
     if !out.errors.is_empty() {
         report(sh, &format!("C10|sender|{rname}|service-error"), &|| format!("response stream carries errors {:?}", out.errors), &cj);
         return;
@@ -1993,13 +2083,17 @@ fn run_sender_case(sh: &Shared, ks: &[Kinds], rq: &SReq, verbose: bool) {
         }
         return;
     }
-    if rq.serial == Some(cur_serial) && refo.verdict == V::UpToDate {
-        // RFC 1995 2: single SOA of the current version.  (A full AXFR-style
-        // answer is wasteful but still a valid transfer and is judged below.)
-        lcount("S:current-serial-single-soa");
+    // RFC 1995 2: a requester whose serial is the same as or newer than the
+    // sender's (RFC 1982 arithmetic, computed here in u64) is answered by the
+    // single current SOA.  (A full AXFR-style answer is wasteful but still a
+    // valid transfer and is judged below.)  A requester that is behind must
+    // get a transfer.
+    let client_behind = rq.serial.map(|s| serial_newer(actual(cur_serial), actual(s))).unwrap_or(true);
+    if !client_behind && refo.verdict == V::UpToDate {
+        lcount("S:requester-not-behind:single-soa");
         return;
     }
-    if rq.udp && refo.verdict == V::UpToDate {
+    if rq.udp && rq.limit < 512 && refo.verdict == V::UpToDate {
         // does not fit: single SOA, retry over TCP (RFC 1995 2)
         lcount("S:udp-single-soa-retry-signal");
         return;
@@ -2068,13 +2162,77 @@ fn run_sender_part(sh: &Shared, b: &Bounds) {
     }
     lcount(&format!("S:version-chains={}", chains.len()));
     let reqs = sender_requests();
-    chains.par_iter().for_each(|ks| {
-        for rq in &reqs {
-            if rq.serial.map(|s| s as usize > ks.len()).unwrap_or(false) {
-                continue;
+    // every serial scheme: the up-to-date / fallback decisions depend on serial arithmetic
+    let work: Vec<(usize, &Vec<Kinds>)> = (0..SCHEMES.len()).flat_map(|sc| chains.iter().map(move |c| (sc, c))).collect();
+    work.par_iter().for_each(|(sc, ks)| {
+        with_scheme(*sc, || {
+            for rq in &reqs {
+                if rq.serial.map(|s| s as usize > ks.len()).unwrap_or(false) {
+                    continue;
+                }
+                run_sender_case(sh, ks, rq, false);
             }
-            run_sender_case(sh, ks, rq, false);
+        })
+    });
+}
+
+/// Parts R and D again under every other serial scheme, on a smaller space:
+/// honest streams of all kinds for pairs at most one RRset apart, packaged in
+/// one message, with one cut at every position, and one RR per message; edit
+/// sequences of length <= 1 on every zone in both commit modes.
+fn run_serial_part(sh: &Shared, b: &Bounds) {
+    let mut work = vec![];
+    for sc in 1..SCHEMES.len() {
+        for oi in 0..64 {
+            for ni in 0..64 {
+                if dist(kinds_of(oi), kinds_of(ni)) <= 1 {
+                    work.push((sc, kinds_of(oi), kinds_of(ni)));
+                }
+            }
         }
+    }
+    work.par_iter().for_each(|(sc, old_k, new_k)| {
+        with_scheme(*sc, || {
+            let old = zone_recs(*old_k);
+            for st in streams_for(*old_k, *new_k, b) {
+                let n = st.seq.len();
+                for mask in masks_for(n, 0, 1) {
+                    let qmode = (mask.count_ones() & 1) as u8;
+                    let msgs: Vec<Bytes> = split_specs(&st.seq, mask, st.qtype, qmode).iter().map(build_msg).collect();
+                    let c = Case {
+                        part: "R",
+                        label: format!("{}/new={:?}/mask={:#b}/q={}", st.label, new_k, mask, qmode),
+                        old_kinds: *old_k,
+                        old_serial: 1,
+                        old: &old,
+                        honest_new: Some(st.new_obs.clone()),
+                        honest_versions: st.versions.clone(),
+                        fault: None,
+                        msgs,
+                        custom_old: None,
+                        replay_as: None,
+                    };
+                    judge(sh, &c, false);
+                }
+            }
+        })
+    });
+    let alpha = op_alphabet();
+    let mut dwork = vec![];
+    for sc in 1..SCHEMES.len() {
+        for zi in 0..64usize {
+            dwork.push((sc, zi));
+        }
+    }
+    dwork.par_iter().for_each(|(sc, zi)| {
+        with_scheme(*sc, || {
+            for mode in 0..2u8 {
+                run_diff_case(sh, kinds_of(*zi), &[], mode, false);
+                for op in &alpha {
+                    run_diff_case(sh, kinds_of(*zi), &[*op], mode, false);
+                }
+            }
+        })
     });
 }
 
@@ -2121,7 +2279,7 @@ struct HistCase<'a> {
 }
 
 fn hist_json(h: &HistCase) -> Value {
-    json!({"part": "H", "old": h.old_k, "u1": h.st.label, "u1_kinds": h.st.kinds, "cut": h.cut, "abort": h.abort, "new2": h.new2_k, "form": h.form})
+    json!({"part": "H", "scheme": scheme(), "old": h.old_k, "u1": h.st.label, "u1_kinds": h.st.kinds, "cut": h.cut, "abort": h.abort, "new2": h.new2_k, "form": h.form})
 }
 
 fn run_history_case(sh: &Shared, h: &HistCase, verbose: bool) {
@@ -2723,7 +2881,8 @@ fn main() {
     if let Some(p) = &ctx.replay {
         let text = std::fs::read_to_string(p).expect("replay file");
         let v: Value = serde_json::from_str(&text).expect("replay json");
-        replay(&sh, &v["case"], &b);
+        let sc = v["case"]["scheme"].as_u64().unwrap_or(0) as usize;
+        with_scheme(sc.min(SCHEMES.len() - 1), || replay(&sh, &v["case"], &b));
     } else {
         let mut pairs = vec![];
         for oi in 0..64 {
@@ -2741,6 +2900,8 @@ fn main() {
         eprintln!("part D done at {:.1}s ({} evaluations)", t0.elapsed().as_secs_f64(), sh.stats.evals());
         run_sender_part(&sh, &b);
         eprintln!("part S done at {:.1}s ({} evaluations)", t0.elapsed().as_secs_f64(), sh.stats.evals());
+        run_serial_part(&sh, &b);
+        eprintln!("serial schemes done at {:.1}s ({} evaluations)", t0.elapsed().as_secs_f64(), sh.stats.evals());
         run_history_part(&sh, &b);
         eprintln!("part H done at {:.1}s ({} evaluations)", t0.elapsed().as_secs_f64(), sh.stats.evals());
         run_tsig_part(&sh, &b);
@@ -2774,6 +2935,7 @@ fn main() {
                 "two_step_mid": format!("dist(old,mid)<={} and dist(mid,new)<={}", b.mid_first, b.mid_second),
                 "fault_pair_distance": b.fault_dist, "fault_split_cuts": b.fault_cuts, "diff_edit_len": b.diff_len,
                 "history": format!("first update: every stream of pairs 1..={} RRsets apart{}, one RR per message, cut after every RR, {} abort kinds; second update: 3 forms to every zone <=1 RRset from the version reached", b.hist_dist, if b.hist_all_mids { " (all 2-step mids)" } else { " (2-step mids different from both ends)" }, b.hist_aborts),
+                "serial_schemes": format!("{:?} as (start, step); part S complete under all, parts R (pairs <=1 apart, <=1 cut + one RR per message) and D (<=1 edit) under schemes 1..", SCHEMES),
                 "tsig_sender": format!("SOA + {} TXT records of {} octets, RNAME extension 0 and 2..={} octets, 4 request kinds", FILLERS, FILL_TXT, b.tsig_extra_max),
             },
             "histogram": total.counters,
